@@ -319,7 +319,8 @@ def run(chk, facts):
             for f_ in flt:
                 cl = strip(f_["args"][0])
                 b_ = src(strip(cl["body"]), -20).replace(" ", "") if cl.get("k") == "closure" else ""
-                by_name = re.search(r"self\." + setname + r"\.iter\(\)\.(all|any)\(\|(\w+)\|\(?\(?\2" + proj + r"\)?(!=|==)\(?(\w+)" + proj + r"\)?\)?\)", b_)
+                by_name = re.search(r"self\." + setname + r"\.iter\(\)\.(all|any)\(\|(\w+)\|\(?\(?\2" + proj + r"\)?(!=|==)\(?(\w+)" + proj + r"\)?\)?\)", b_) or \
+                    re.search(r"self\." + setname + r"\.iter\(\)\.(all|any)\(\|(\w+)\|\(?\(?\w+" + proj + r"\)?(!=|==)\(?\2" + proj + r"\)?\)?\)", b_)     # either side first
                 if by_name and ".contains(" not in b_ and ((by_name.group(1) == "all" and "!=" in by_name.group(0)) or (by_name.group(1) == "any" and b_.startswith("!"))):
                     ok = True
                 else:
